@@ -6,6 +6,7 @@ CONSTANTS
 CHECK_DEADLOCK FALSE
 INVARIANTS
   TypeOK
+  IndexAheadOfState
   RestartSucceedsOrKF
   RecoveredEqualsNoCrash
   AtLeastOnceInOrder
